@@ -21,7 +21,13 @@
 //! (33 bytes, tag‖garbage), all-zero and bit-flipped tags and the *correct* tags of another nonce, domain,
 //! key, version, content or record list; an acceptance of anything but the exact full-length tag of exactly the
 //! presented input (reference: library HMAC over the harness' own concatenation) is
-//! `c17-forged-tag-accepted:<variant>`.
+//! `c17-forged-tag-accepted:<variant>`.  Stored values are presented in *every* truncation (empty value and
+//! values shorter than a tag included) under the key they were written for and under a key nothing was written for.
+//!
+//! Statefulness: one long-lived `ExternalPersistHelper` per case is driven through read 1 / reply / read 2 / ...
+//! with an entropy source the harness controls (`hnew`, `hnonce E`, `hcheck T recs`); monitors: consecutive
+//! requests with different entropy must get different nonces (`c17-nonce-reused`), and a reply recorded under an
+//! earlier request's nonce must be refused later (`c17-replayed-reply-accepted`).
 use crate::common::*;
 use lightning_signer::lightning::sign::EntropySource;
 use lightning_signer::persist::{compute_shared_hmac, ExternalPersistHelper, Mutations};
@@ -41,10 +47,24 @@ fn unhex(s: &str) -> Vec<u8> {
     if s == "-" { vec![] } else { hex::decode(s).expect("hex") }
 }
 
-struct FixedEntropy([u8; 32]);
+/// Entropy source controlled by the harness: the first draw of a request returns the given bytes; should the
+/// code under test draw again inside the same call (e.g. a retry loop), later draws differ in the last bytes, so
+/// that no loop over the source can spin forever.
+struct FixedEntropy([u8; 32], std::cell::Cell<u32>);
+impl FixedEntropy {
+    fn new(e: [u8; 32]) -> Self {
+        FixedEntropy(e, std::cell::Cell::new(0))
+    }
+}
 impl EntropySource for FixedEntropy {
     fn get_secure_random_bytes(&self) -> [u8; 32] {
-        self.0
+        let n = self.1.get();
+        self.1.set(n + 1);
+        let mut out = self.0;
+        for (j, b) in n.to_be_bytes().iter().enumerate() {
+            out[28 + j] ^= *b;
+        }
+        out
     }
 }
 
@@ -178,9 +198,78 @@ impl Monitor {
     }
 }
 
-fn exec_line(line: &str, i: usize, mon: &mut Monitor, co: &mut CaseOut) -> String {
+/// one long-lived `ExternalPersistHelper` driven through read 1 / read 2 / ...; the harness controls the
+/// entropy source and remembers what it handed out for every request
+#[derive(Default)]
+struct HState {
+    helper: Option<ExternalPersistHelper>,
+    secret: Vec<u8>,
+    /// entropy output handed to each new_nonce call, and the nonce the helper returned for it
+    requests: Vec<([u8; 32], [u8; 32])>,
+}
+
+fn exec_line(line: &str, i: usize, mon: &mut Monitor, hs: &mut HState, co: &mut CaseOut) -> String {
     let t: Vec<&str> = line.split(' ').filter(|s| !s.is_empty()).collect();
     match t[0] {
+        "hnew" => {
+            let s = unhex(t[1]);
+            let s32 = match arr32(&s) { Some(a) => a, None => return "bad-secret".into() };
+            hs.helper = Some(ExternalPersistHelper::new(s32));
+            hs.secret = s;
+            hs.requests.clear();
+            "ok".into()
+        }
+        "hnonce" => {
+            let e32 = match arr32(&unhex(t[1])) { Some(a) => a, None => return "bad-entropy".into() };
+            let h = match hs.helper.as_mut() { Some(h) => h, None => return "no-helper".into() };
+            let nonce = h.new_nonce(&FixedEntropy::new(e32));
+            // a response must authenticate under the *fresh* nonce of its request: two consecutive requests
+            // whose entropy outputs differ must not get the same nonce
+            if let Some((pe, pn)) = hs.requests.last() {
+                if *pe != e32 && *pn == nonce {
+                    co.violations.push(Violation {
+                        kind: "c17-nonce-reused".into(),
+                        desc: format!("new_nonce returned {} again although the entropy source produced {} (previous request: entropy {})",
+                            hexs(&nonce), hexs(&e32), hexs(pe)),
+                        at: i,
+                    });
+                }
+            }
+            hs.requests.push((e32, nonce));
+            co.tags.insert("hnonce".into());
+            hexs(&nonce)
+        }
+        "hcheck" => {
+            let (tag, rs) = (unhex(t[1]), parse_recs(&t[2..]));
+            let m = match to_mutations(&rs) { Some(m) => m, None => return "bad-key".into() };
+            let h = match hs.helper.as_ref() { Some(h) => h, None => return "no-helper".into() };
+            let ok = h.check_hmac(&m, tag.clone());
+            if ok {
+                co.tags.insert("check:true".into());
+                // only the tag under the entropy handed out for the *current* request may pass
+                let cur = hs.requests.last().map(|r| r.0.to_vec()).unwrap_or(vec![0u8; 32]);
+                let expected = ref_shared_tag(&hs.secret, &cur, &rs);
+                if tag != expected {
+                    let n_req = hs.requests.len();
+                    let replay = hs.requests[..n_req.saturating_sub(1)].iter().enumerate()
+                        .find(|(_, r)| r.0.to_vec() != cur && ref_shared_tag(&hs.secret, &r.0, &rs) == tag);
+                    let (kind, what) = match replay {
+                        Some((j, r)) => ("c17-replayed-reply-accepted".to_string(),
+                            format!("the reply recorded for request {} (nonce {})", j + 1, hexs(&r.0))),
+                        None => (format!("c17-forged-tag-accepted:{}", forged_variant(&tag, &expected, &[])), "a tag".to_string()),
+                    };
+                    co.violations.push(Violation {
+                        kind,
+                        desc: format!("check_hmac accepted {} {} for request {} whose fresh nonce is {}; records[{}]",
+                            what, hexs(&tag), n_req, hexs(&cur), show_recs(&rs)),
+                        at: i,
+                    });
+                }
+            } else {
+                co.tags.insert("check:false".into());
+            }
+            ok.to_string()
+        }
         "shared" => {
             let (s, n, rs) = (unhex(t[1]), unhex(t[2]), parse_recs(&t[3..]));
             let m = match to_mutations(&rs) { Some(m) => m, None => return "bad-key".into() };
@@ -202,7 +291,7 @@ fn exec_line(line: &str, i: usize, mon: &mut Monitor, co: &mut CaseOut) -> Strin
             let m = match to_mutations(&rs) { Some(m) => m, None => return "bad-key".into() };
             let (s32, n32) = match (arr32(&s), arr32(&n)) { (Some(a), Some(b)) => (a, b), _ => return "bad-secret".into() };
             let mut h = ExternalPersistHelper::new(s32);
-            let got = h.new_nonce(&FixedEntropy(n32));
+            let got = h.new_nonce(&FixedEntropy::new(n32));
             assert_eq!(got, n32);
             let ok = h.check_hmac(&m, tag.clone());
             if ok {
@@ -243,6 +332,17 @@ fn exec_line(line: &str, i: usize, mon: &mut Monitor, co: &mut CaseOut) -> Strin
             let ks = match String::from_utf8(k.clone()) { Ok(s) => s, Err(_) => return "bad-key".into() };
             let mut value = st.clone();
             match lssu::remove_and_check_hmac(&s, &ks, v as i64, &mut value) {
+                Ok(()) if st.len() < 32 => {
+                    // nothing shorter than a tag can be what was written
+                    co.tags.insert("proc:ok".into());
+                    co.violations.push(Violation {
+                        kind: format!("c17-forged-tag-accepted:stored-{}", if st.is_empty() { "empty" } else { "shorter-than-tag" }),
+                        desc: format!("remove_and_check_hmac accepted the {}-byte stored value {} for (key {}, version {}) without any tag",
+                            st.len(), hexs(&st), hexs(&k), v),
+                        at: i,
+                    });
+                    format!("ok {}", hexs(&value))
+                }
                 Ok(()) => {
                     co.tags.insert("proc:ok".into());
                     let tag = st[st.len() - 32..].to_vec();
@@ -276,19 +376,25 @@ fn exec_line(line: &str, i: usize, mon: &mut Monitor, co: &mut CaseOut) -> Strin
             let mut val = Value { version: v as i64, value: x.clone() };
             lssu::prepare_value_for_put(&s, &ks, &mut val);
             let mut stored = val.value.clone();
+            let written = stored.clone();
             let m = t[7];
             if let Some(i) = m.strip_prefix('f') { let i: usize = i.parse().unwrap(); if !stored.is_empty() { let j = i % stored.len(); stored[j] ^= 1; } }
             else if let Some(n) = m.strip_prefix('t') { let n: usize = n.parse().unwrap(); let l = stored.len().saturating_sub(n); stored.truncate(l); }
             else if let Some(h) = m.strip_prefix('p') { let mut p = unhex(h); p.extend(stored); stored = p; }
             else if let Some(h) = m.strip_prefix('a') { stored.extend(unhex(h)); }
+            let presented = stored.clone();
             let mut back = Value { version: v2 as i64, value: stored };
             match lssu::process_value_from_get(&s, &ks2, &mut back) {
                 Ok(()) => {
-                    if (k2.clone(), v2, back.value.clone()) != (k.clone(), v, x.clone()) {
+                    // accepted only if exactly the bytes written are presented under exactly the key and version
+                    if presented != written || (k2.clone(), v2, back.value.clone()) != (k.clone(), v, x.clone()) {
+                        let variant = if presented.is_empty() { "stored-empty" }
+                            else if presented.len() < 32 { "stored-shorter-than-tag" }
+                            else { "stored-value-not-as-written" };
                         co.violations.push(Violation {
-                            kind: "c17-forged-tag-accepted:stored-value-not-as-written".into(),
-                            desc: format!("written (key {}, version {}, value {}), mutation {}, accepted as (key {}, version {}, value {})",
-                                hexs(&k), v, hexs(&x), m, hexs(&k2), v2, hexs(&back.value)),
+                            kind: format!("c17-forged-tag-accepted:{}", variant),
+                            desc: format!("written (key {}, version {}, value {}), mutation {} -> {} stored bytes presented, accepted as (key {}, version {}, value {})",
+                                hexs(&k), v, hexs(&x), m, presented.len(), hexs(&k2), v2, hexs(&back.value)),
                             at: i,
                         });
                     }
@@ -503,6 +609,35 @@ impl Group for C17Hmac {
                 ops.push(format!("shared {} {}{}", s, hexs(&n3), show_recs(&base)));
                 ops.push(format!("shared {} 01 {} 0 -{}", s, hexs(&n3[1..23].iter().map(|b| b & 0x7f).collect::<Vec<u8>>()), show_recs(&base)));
             }
+            // one long-lived helper: read 1 / reply 1 / read 2 / replayed reply 1 / reply 2 / ...
+            {
+                ops.push(format!("hnew {}", s));
+                let reads = rng.range(2, 5) as usize;
+                let mut recorded: Vec<(Vec<u8>, Vec<Rec>)> = Vec::new(); // (tag, records) of earlier replies
+                let mut prev_e: Option<Vec<u8>> = None;
+                for r in 0..reads {
+                    let e = match rng.below(8) {
+                        0 if r > 0 => vec![0u8; 32],                       // the helper's initial value
+                        1 if prev_e.is_some() => prev_e.clone().unwrap(),  // the source repeats itself (not the helper's fault)
+                        2 if prev_e.is_some() => { let mut q = prev_e.clone().unwrap(); q[rng.below(32) as usize] ^= 1 << rng.below(8); q }
+                        _ => rng.bytes(32),
+                    };
+                    ops.push(format!("hnonce {}", hexs(&e)));
+                    let recs_r: Vec<Rec> = if rng.chance(1, 2) { base.clone() } else {
+                        (0..rng.range(1, 3)).map(|_| (ascii_key(rng), rand_version(rng), rand_value(rng))).collect() };
+                    let mr = to_mutations(&recs_r).unwrap();
+                    let tag_r = compute_shared_hmac(&secret, &e, &mr).to_vec();
+                    // replies recorded for earlier reads, replayed now (same and other records)
+                    for (t0, r0) in recorded.iter() {
+                        ops.push(format!("hcheck {}{}", hexs(t0), show_recs(r0)));
+                        if rng.chance(1, 3) { ops.push(format!("hcheck {}{}", hexs(t0), show_recs(&recs_r))); }
+                    }
+                    ops.push(format!("hcheck {}{}", hexs(&tag_r), show_recs(&recs_r)));
+                    if rng.chance(1, 2) { ops.push(format!("hcheck {}{}", hexs(&tag_r[..*rng.pick(&[0usize, 1, 16, 31])]), show_recs(&recs_r))); }
+                    recorded.push((tag_r, recs_r));
+                    prev_e = Some(e);
+                }
+            }
             for (_name, r) in mutate_recs(rng, &base) {
                 ops.push(format!("shared {} {}{}", s, n, show_recs(&r)));
                 if rng.chance(1, 2) {
@@ -548,6 +683,22 @@ impl Group for C17Hmac {
             ops.push(format!("proc {} {} {} {}", s, hexs(&k), v, hexs(&stored[1..])));
             ops.push(format!("proc {} {} {} {}", s, hexs(&k), v, hexs(&stored[..rng.below(33) as usize])));
             ops.push(format!("procx {} {} {} {} {} {} t{}", s, hexs(&k), v, hexs(&x), hexs(&k), v, rng.range(1, 40)));
+            // every truncation of the valid stored value — down to the empty value and values shorter than a tag —
+            // under the key/version it was written for and under a key/version nothing was ever written for
+            let (kn, vn) = ({ let mut q = ascii_key(rng); q.extend_from_slice(b"/none"); q }, rand_version(rng));
+            for cut in 0..stored.len() {
+                ops.push(format!("proc {} {} {} {}", s, hexs(&k), v, hexs(&stored[..cut])));
+                if cut < 34 || rng.chance(1, 4) {
+                    ops.push(format!("proc {} {} {} {}", s, hexs(&kn), vn, hexs(&stored[..cut])));
+                    ops.push(format!("proc {} {} {} {}", s, hexs(&k), v, hexs(&stored[stored.len() - cut..])));
+                }
+            }
+            for n in 1..=(stored.len()) {
+                ops.push(format!("procx {} {} {} {} {} {} t{}", s, hexs(&k), v, hexs(&x), hexs(&k), v, n));
+                if n + 34 > stored.len() || rng.chance(1, 4) {
+                    ops.push(format!("procx {} {} {} {} {} {} t{}", s, hexs(&k), v, hexs(&x), hexs(&kn), vn, n));
+                }
+            }
             // forged tags: content followed by a truncated tag (0, 1, 16, 31 bytes), an extended tag, a flipped tag,
             // and the correct tag of another key / version / content
             let tagv = stored[stored.len() - 32..].to_vec();
@@ -600,8 +751,9 @@ impl Group for C17Hmac {
     fn exec_case(&self, ops: &[String]) -> CaseOut {
         let mut co = CaseOut::default();
         let mut mon = Monitor::default();
+        let mut hs = HState::default();
         for (i, line) in ops.iter().enumerate() {
-            let o = exec_line(line, i, &mut mon, &mut co);
+            let o = exec_line(line, i, &mut mon, &mut hs, &mut co);
             co.tags.insert(format!("op:{}", line.split(' ').next().unwrap_or("")));
             co.out.push(o);
         }
